@@ -63,6 +63,8 @@ func GenTargeted(seed int64, idx int, profile string) (GCase, bool) {
 		"matching":   {famMatching, famCandidates, famCandidates, famImports, famGetterShapes, famImportNames, famGenerics},
 		"slices":     {famSlices, famSlices},
 		"casefold":   {famCaseFlip, famCandidates},
+		"getters":    {famGetterShapes, famGetterShapes, famCandidates},
+		"generics":   {famGenerics, famImportNames},
 		"simple":     {famRefs},
 		"mixed":      {famNested, famPerMethodLists, famSharedHooks, famErrors, famSignatures, famImports, famMatching, famSlices, famRefs, famCaseFlip, famCandidates, famGetterShapes, famImportNames, famGenerics},
 		"malformed":  {famSharedHooks, famErrors},
@@ -681,7 +683,7 @@ func famSignatures(t *tgen) {
 
 func famSelection(t *tgen) {
 	t.feat("family:interface-selection")
-	types := fmt.Sprintf("package %s\n\ntype S struct{ A int }\ntype D struct{ A int }\n", t.name)
+	types := fmt.Sprintf("package %s\n\ntype S struct{ A int }\ntype D struct{ A int }\n\nfunc helper() {}\nfunc (s *S) Has() bool { return true }\n", t.name)
 	var sb strings.Builder
 	sb.WriteString(header(t))
 	useNamed := t.ch(0.5)
@@ -701,10 +703,36 @@ func famSelection(t *tgen) {
 		if t.ch(0.2) {
 			sb.WriteString("// :typecast\n")
 		}
-		fmt.Fprintf(&sb, "type %s interface {\n\t// :skip A\n\tM%d(*S) *D\n}\n\n", name, k)
+		// method names: mostly fresh; sometimes the name of another method (of another interface), of a
+		// declaration that stays in the package, of the interface itself, or - in receiver style - of a
+		// field or method of the receiver type
+		mname := fmt.Sprintf("M%d", k)
+		recv := ""
+		if t.ch(0.35) {
+			mname = t.pick("M0", "M1", "S", "D", "helper", name, "A", "Has")
+			if t.ch(0.4) {
+				recv = "\t// :recv s\n"
+			}
+			t.feat("method-name-clash-candidate")
+		}
+		fmt.Fprintf(&sb, "type %s interface {\n\t// :skip A\n%s\t%s(*S) *D\n}\n\n", name, recv, mname)
 	}
-	if !useNamed && t.ch(0.3) {
+	if !useNamed && t.ch(0.4) {
 		sb.WriteString("// :convergen\ntype Sure interface {\n\tSure(*S) *D\n}\n")
+		t.feat("method-named-like-its-interface")
+	}
+	if t.ch(0.3) {
+		// two marked interfaces asking for a function of the same name: plain (a clash) or with receivers of
+		// different types (legal)
+		switch t.r.Intn(3) {
+		case 0:
+			sb.WriteString("// :convergen\ntype Twin1 interface {\n\tSame(*S) *D\n}\n\n// :convergen\ntype Twin2 interface {\n\tSame(*D) *S\n}\n")
+		case 1:
+			sb.WriteString("// :convergen\ntype Twin1 interface {\n\t// :recv s\n\tSame(*S) *D\n}\n\n// :convergen\ntype Twin2 interface {\n\t// :recv d\n\tSame(*D) *S\n}\n")
+		default:
+			sb.WriteString("// :convergen\ntype Twin1 interface {\n\t// :recv s\n\tSame(*S) *D\n}\n\n// :convergen\ntype Twin2 interface {\n\t// :recv x\n\tSame(s *S) D\n}\n")
+		}
+		t.feat("twin-interfaces-same-method-name")
 	}
 	t.files[t.name+"/setup.go"] = sb.String()
 	t.files[t.name+"/types.go"] = types
@@ -952,8 +980,8 @@ func FromInt(n int) (int, error) { return n, nil }
 	srcs := []string{"Plain()", "PtrRecv()", "WithParam()", "Variadic()", "Two()", "TwoNoErr()", "Three()", "None()", "ErrOnly()",
 		"Cat().Age", "PCat().Age", "Cat().Name()", "Cat().PName()", "PCat().Name()", "PCat().PName()", "Self().A", "Self().Plain()",
 		"Self().Self().A", "Two().A", "A", "cat.Age", "cat.Name()", "cat.PName()", "pc.PName()"}
-	convs := []string{"FromCat Cat() N", "FromCat PCat() N", "FromCatV Cat() N", "FromCatV PCat() N", "FromCat cat N", "FromCat pc N",
-		"FromInt Plain() B", "FromInt Two() B", "FromInt A B"}
+	convs := []string{"FromCat Cat() N", "FromCat Cat() N", "FromCat PCat() N", "FromCatV Cat() N", "FromCatV PCat() N", "FromCat cat N", "FromCat pc N",
+		"FromInt Plain() B", "FromInt Two() B", "FromInt Two() B", "FromInt Two() B", "FromInt A B"}
 	var sb strings.Builder
 	sb.WriteString(header(t))
 	sb.WriteString("type Convergen interface {\n")
@@ -963,18 +991,18 @@ func FromInt(n int) (int, error) { return n, nil }
 		for _, d := range dsts[:1+t.r.Intn(3)] {
 			fmt.Fprintf(&sb, "\t// :map %s %s\n", srcs[t.r.Intn(len(srcs))], d)
 		}
-		if t.ch(0.5) {
+		if t.ch(0.7) {
 			sb.WriteString("\t// :conv " + convs[t.r.Intn(len(convs))] + "\n")
 		}
-		if t.ch(0.3) {
-			fmt.Fprintf(&sb, "\t// :map %s M\n", t.pick("Cat().Name()", "Cat().PName()", "PCat().Name()", "cat.Name()", "pc.Name()"))
+		if t.ch(0.4) {
+			fmt.Fprintf(&sb, "\t// :map %s M\n", t.pick("Cat().Name()", "Cat().PName()", "Cat().PName()", "PCat().Name()", "cat.Name()", "pc.Name()"))
 		}
 		for _, n := range []string{":getter", ":typecast", ":stringer"} {
 			if t.ch(0.3) {
 				sb.WriteString("\t// " + n + "\n")
 			}
 		}
-		ret := t.pick("*D", "D", "(*D, error)", "(D, error)")
+		ret := t.pick("*D", "D", "(*D, error)", "(D, error)", "(*D, error)")
 		fmt.Fprintf(&sb, "\tTo%d(%sS) %s\n", j, t.pick("*", ""), ret)
 	}
 	sb.WriteString("}\n")
